@@ -2,6 +2,7 @@ package metrics
 
 import (
 	"net/http"
+	"strings"
 	"time"
 
 	"k8s.io/apiserver/pkg/authentication/user"
@@ -75,6 +76,15 @@ type unionObserver struct {
 }
 
 func (o *unionObserver) Observe(metric MetricInfo) {
+	// label values come from the request (path, host, user) and may hold any
+	// bytes; prometheus panics on a label value that is not valid UTF-8
+	for _, label := range []*string{
+		&metric.UserName, &metric.ServerName, &metric.Endpoint, &metric.FlowControl, &metric.Verb,
+		&metric.Resource, &metric.HttpCode, &metric.Path, &metric.Reason, &metric.Stage,
+		&metric.Method, &metric.Result, &metric.LimitMethod, &metric.Type,
+	} {
+		*label = strings.ToValidUTF8(*label, "\uFFFD")
+	}
 	for _, ob := range o.observers {
 		ob.Observe(metric)
 	}
